@@ -49,7 +49,7 @@ impl Pkg {
 }
 
 pub fn count(tier: Tier) -> u64 {
-    tier.pick(64, 2400)
+    tier.pick(160, 2400)
 }
 
 fn rand_src(rng: &mut Rng) -> Src {
